@@ -84,7 +84,13 @@ def check(cx):
                 # interpreting the operator (callees are inlined) belongs to it
                 loops = list(it.loops)
                 foreach = [e for e in it.events if e['kind'] == 'for_each']
-                if len(loops) == 1:
+                final0 = it.read(st, a.args[0].root, ()) if by_mut else a.ret
+                seq0 = final0.fields[0].seq if isinstance(final0, Struct) and final0.path == PW and isinstance(final0.fields[0], VecV) else None
+                if isinstance(seq0, SeqMap) and isinstance(seq0.src, SeqSym) and seq0.src.name == 'self.segments':
+                    # the pass (however it is written) has been closed into "every piece ι becomes f(piece ι)"
+                    rep.ob('pw-traversal', inst, True, 'every piece of self.segments is rewritten in place, in order', fn=inst, file=file, line=line)
+                    ivar, val = seq0.ivar, seq0.elem
+                elif len(loops) == 1:
                     res, why = full_traversal(it, loops[0])
                     if res is None:
                         rep.ob('pw-traversal', inst, False, why, fn=inst, file=file, line=loops[0].line,
